@@ -24,20 +24,26 @@ structure PestState where
   outside : List (Int × Int)
 deriving Repr, Inhabited, DecidableEq
 
+/-- Soil share of `x` generated dispersers. -/
+def soilShare (soilPct : Option Rat) (x : Int) : Int :=
+  match soilPct with | some pct => lround (pct * x) | none => 0
+
+/-- Loop of `SpreadAction::generate` over the suitable cells. -/
+def generateGo (g : Grid) (soilPct : Option Rat) : List (Int × Int) → List Int → PestState → List Int → PestState × List Int
+  | (r, c) :: rest, x :: xs, p, acc =>
+    let k := g.idx r c
+    if x > 0 then
+      let toSoil := soilShare soilPct x
+      generateGo g soilPct rest xs { p with disp := p.disp.set k (x - toSoil), est := p.est.set k 0 } (acc ++ [toSoil])
+    else generateGo g soilPct rest xs { p with disp := p.disp.set k 0, est := p.est.set k 0 } (acc ++ [0])
+  | _, _, p, acc => (p, acc)
+
 /-- `SpreadAction::generate` with the generated counts `gen` (one per suitable cell, in order;
     for deterministic generation `gen` is `dispersersFromDet`). With soils, `lround (pct * g)`
     of each positive count go to the soil. Returns the pest rasters and the soil shares. -/
 def generateStep (g : Grid) (suit : List (Int × Int)) (gen : List Int) (soilPct : Option Rat)
     (p : PestState) : PestState × List Int :=
-  let rec go : List (Int × Int) → List Int → PestState → List Int → PestState × List Int
-    | (r, c) :: rest, x :: xs, p, acc =>
-      let k := g.idx r c
-      if x > 0 then
-        let toSoil := match soilPct with | some pct => lround (pct * x) | none => 0
-        go rest xs { p with disp := p.disp.set k (x - toSoil), est := p.est.set k 0 } (acc ++ [toSoil])
-      else go rest xs { p with disp := p.disp.set k 0, est := p.est.set k 0 } (acc ++ [0])
-    | _, _, p, acc => (p, acc)
-  go suit gen p []
+  generateGo g soilPct suit gen p []
 
 /-- Deterministic generation counts: `lround (i * reproductive_rate * weather)` per suitable cell. -/
 def detGenerated (g : Grid) (suit : List (Int × Int)) (cells : List Cell) (rr : Rat) (w : Option (List Rat)) : List Int :=
@@ -77,82 +83,111 @@ def landOne (g : Grid) (env : DisperseEnv) (cells : List Cell) (p : PestState) (
     | .error e => .error e
     | .ok (c', res, used) => .ok (cells.set k c', p, res == 1, if used = 0 then us else us.drop 1)
 
+/-- The dispersers of one origin cell: one kernel result each; the established counter of the
+    origin is incremented per success. -/
+def disperseCell (g : Grid) (env : DisperseEnv) (origin : Nat) : Nat → List Cell → PestState → List (Int × Int) → List Rat →
+    Except ErrKind (List Cell × PestState × List (Int × Int) × List Rat)
+  | 0, cells, p, ts, us => .ok (cells, p, ts, us)
+  | n + 1, cells, p, ts, us =>
+    match ts with
+    | [] => .ok (cells, p, ts, us)
+    | t :: ts' =>
+      match landOne g env cells p t us with
+      | .error e => .error e
+      | .ok (cells', p', ok, us') =>
+        let p'' := if ok then { p' with est := p'.est.set origin (p'.est[origin]! + 1) } else p'
+        disperseCell g env origin n cells' p'' ts' us'
+
+/-- Loop of `SpreadAction::disperse` over the suitable cells (without soils). -/
+def disperseGo (g : Grid) (env : DisperseEnv) : List (Int × Int) → List Cell → PestState → List (Int × Int) → List Rat →
+    Except ErrKind (List Cell × PestState × List (Int × Int) × List Rat)
+  | [], cells, p, ts, us => .ok (cells, p, ts, us)
+  | (r, c) :: rest, cells, p, ts, us =>
+    let k := g.idx r c
+    match disperseCell g env k (p.disp[k]!).toNat cells p ts us with
+    | .error e => .error e
+    | .ok (cells', p', ts', us') => disperseGo g env rest cells' p' ts' us'
+
 /-- `SpreadAction::disperse` without soils: for each suitable cell in order, one kernel call per
-    disperser of that cell; the established counter of the origin is incremented per success. -/
+    disperser of that cell. -/
 def disperseStep (g : Grid) (env : DisperseEnv) (suit : List (Int × Int)) (cells : List Cell) (p : PestState)
     (targets : List (Int × Int)) (us : List Rat) :
     Except ErrKind (List Cell × PestState × List (Int × Int) × List Rat) :=
-  let rec cellLoop (origin : Nat) : Nat → List Cell → PestState → List (Int × Int) → List Rat →
-      Except ErrKind (List Cell × PestState × List (Int × Int) × List Rat)
-    | 0, cells, p, ts, us => .ok (cells, p, ts, us)
-    | n + 1, cells, p, ts, us =>
-      match ts with
-      | [] => .ok (cells, p, ts, us)
-      | t :: ts' =>
-        match landOne g env cells p t us with
-        | .error e => .error e
-        | .ok (cells', p', ok, us') =>
-          let p'' := if ok then { p' with est := p'.est.set origin (p'.est[origin]! + 1) } else p'
-          cellLoop origin n cells' p'' ts' us'
-  let rec go : List (Int × Int) → List Cell → PestState → List (Int × Int) → List Rat →
-      Except ErrKind (List Cell × PestState × List (Int × Int) × List Rat)
-    | [], cells, p, ts, us => .ok (cells, p, ts, us)
-    | (r, c) :: rest, cells, p, ts, us =>
-      let k := g.idx r c
-      let n := p.disp[k]!
-      match cellLoop k n.toNat cells p ts us with
-      | .error e => .error e
-      | .ok (cells', p', ts', us') => go rest cells' p' ts' us'
-  go suit cells p targets us
+  disperseGo g env suit cells p targets us
+
+/-- `SoilPool::next_step`: the cohorts age by one position and the youngest is cleared. -/
+def soilNext (cohorts : List Int) : List Int :=
+  match rotateLeft cohorts with
+  | [] => []
+  | r => r.dropLast ++ [0]
 
 /-! ### Overpopulation -/
 
-/-- `MoveOverpopulatedPests::action` (single host): departures are decided for every suitable cell
-    from the running state (a source is only reduced by its own departure), arrivals are applied
-    afterwards in source order. `targets` holds one kernel result per departing cell. -/
+/-- The overpopulation rule at one cell: at least two infected hosts and
+    infected / (susceptible + infected) >= threshold. -/
+def departs (threshold : Rat) (c : Cell) : Bool :=
+  decide (c.i > 1) && decide ((c.i : Rat) / ((c.s + c.i : Int) : Rat) ≥ threshold)
+
+/-- Number of pests leaving a departing cell: `lround (infected * leaving share)`. -/
+def leavingCount (leaving : Rat) (c : Cell) : Int := lround ((c.i : Rat) * leaving)
+
+/-- First phase of `MoveOverpopulatedPests::action`: departures, in suitable-cell order. Every
+    departing cell takes the next kernel result; pests sent outside are recorded, the others are
+    collected as pending moves. -/
+def departGo (g : Grid) (threshold leaving : Rat) : List (Int × Int) → List Cell → PestState → List (Int × Int) →
+    List (Int × Int × Int) → List Cell × PestState × List (Int × Int) × List (Int × Int × Int)
+  | [], cells, p, ts, moves => (cells, p, ts, moves)
+  | (r, c) :: rest, cells, p, ts, moves =>
+    let k := g.idx r c
+    let cell := cells[k]!
+    if departs threshold cell then
+      match ts with
+      | [] => (cells, p, ts, moves)
+      | (tr, tc) :: ts' =>
+        let (cell', left) := cell.pestsFrom (leavingCount leaving cell)
+        let cells' := cells.set k cell'
+        if g.isOutside tr tc then
+          departGo g threshold leaving rest cells' { p with outside := p.outside ++ List.replicate left.toNat (tr, tc) } ts' moves
+        else departGo g threshold leaving rest cells' p ts' (moves ++ [(tr, tc, left)])
+    else departGo g threshold leaving rest cells p ts moves
+
+/-- Second phase: arrivals, in the order the moves were collected. -/
+def arriveAll (g : Grid) (moves : List (Int × Int × Int)) (cells : List Cell) : List Cell :=
+  moves.foldl (fun cs (m : Int × Int × Int) =>
+    let k := g.idx m.1 m.2.1
+    cs.set k ((cs[k]!).pestsTo m.2.2).1) cells
+
+/-- `MoveOverpopulatedPests::action` (single host): all departures are decided before any
+    arrival. `targets` holds one kernel result per departing cell. -/
 def overpopulationStep (g : Grid) (suit : List (Int × Int)) (cells : List Cell) (p : PestState)
     (threshold leaving : Rat) (targets : List (Int × Int)) :
     List Cell × PestState × List (Int × Int) :=
-  let rec depart : List (Int × Int) → List Cell → PestState → List (Int × Int) → List (Int × Int × Int) →
-      List Cell × PestState × List (Int × Int) × List (Int × Int × Int)
-    | [], cells, p, ts, moves => (cells, p, ts, moves)
-    | (r, c) :: rest, cells, p, ts, moves =>
-      let k := g.idx r c
-      let cell := cells[k]!
-      let orig := cell.i
-      if orig ≤ 1 then depart rest cells p ts moves
-      else
-        let ratio : Rat := (orig : Rat) / ((cell.s + cell.i : Int) : Rat)
-        if ratio ≥ threshold then
-          match ts with
-          | [] => (cells, p, ts, moves)
-          | (tr, tc) :: ts' =>
-            let leavingCount := lround ((orig : Rat) * leaving)
-            let (cell', left) := cell.pestsFrom leavingCount
-            let cells' := cells.set k cell'
-            if g.isOutside tr tc then
-              depart rest cells' { p with outside := p.outside ++ List.replicate left.toNat (tr, tc) } ts' moves
-            else depart rest cells' p ts' (moves ++ [(tr, tc, left)])
-        else depart rest cells p ts moves
-  let (cells1, p1, ts1, moves) := depart suit cells p targets []
-  let cells2 := moves.foldl (fun cs (tr, tc, n) =>
-    let k := g.idx tr tc
-    cs.set k ((cs[k]!).pestsTo n).1) cells1
-  (cells2, p1, ts1)
+  let r := departGo g threshold leaving suit cells p targets []
+  (arriveAll g r.2.2.2 r.1, r.2.1, r.2.2.1)
 
 /-! ### Host movement cursor -/
+
+/-- Loop of `HostMovement::action`: from row `i`, rows are applied while their scheduled step
+    equals `step`; returns the applied rows and the new cursor. -/
+def movementGo (schedule : List Nat) (step : Nat) : Nat → Nat → List Nat → List Nat × Nat
+  | 0, i, acc => (acc, i)
+  | fuel + 1, i, acc =>
+    if i < schedule.length then
+      if schedule[i]! ≠ step then (acc, i) else movementGo schedule step fuel (i + 1) (acc ++ [i])
+    else (acc, schedule.length)
 
 /-- `HostMovement::action`: rows from `last` on are applied while their scheduled step equals
     `step`; returns the rows to apply and the new cursor. -/
 def movementRows (schedule : List Nat) (last step : Nat) : List Nat × Nat :=
-  let rec go (i : Nat) (fuel : Nat) (acc : List Nat) : List Nat × Nat :=
-    match fuel with
-    | 0 => (acc, i)
-    | fuel + 1 =>
-      if i < schedule.length then
-        if schedule[i]! ≠ step then (acc, i) else go (i + 1) fuel (acc ++ [i])
-      else (acc, schedule.length)
-  go last (schedule.length + 1) []
+  movementGo schedule step (schedule.length + 1) last []
+
+/-- The cursor threaded through the steps at which host movement is invoked (the spread steps
+    of the run, in increasing order): rows applied at each of them. -/
+def movementRunOn (schedule : List Nat) : List Nat → Nat → List (Nat × List Nat)
+  | [], _ => []
+  | step :: rest, last =>
+    let r := movementRows schedule last step
+    (step, r.1) :: movementRunOn schedule rest r.2
 
 /-! ### Step plan (C09) -/
 
